@@ -13,6 +13,7 @@ import WpModel.Model.C18PdfString
 import WpModel.Model.C18Attach
 import WpModel.Model.C18HitArea
 import WpModel.Model.C18LinkAttr
+import WpModel.Model.C18DocLinks
 
 namespace Wp.Drive.Outline
 open Wp Wp.Outline Wp.Anchors
@@ -311,85 +312,37 @@ def heading? : Sx → Option (Int × String × String)
   | .list [l, label, state] => do pure (← l.int?, ← str? label, ← str? state)
   | _ => none
 
-structure DLink where
-  type : String
-  target : String
-  rect : Rect
-
-structure DPage where
-  height : Rat
-  anchors : List (Anchor × List Nat)
-  links : List DLink
-
+open Wp.DocLinks in
 def danchor? : Sx → Option (Anchor × List Nat)
   | .list [n, .list cps, x, y] => do pure (⟨← str? n, ← x.rat?, ← y.rat?⟩, ← allSome Sx.nat? cps)
   | _ => none
 
+open Wp.DocLinks in
 def dlink? : Sx → Option DLink
   | .list [t, target, x1, y1, x2, y2] => do
     pure ⟨← str? t, ← str? target, ⟨← x1.rat?, ← y1.rat?, ← x2.rat?, ← y2.rat?⟩⟩
   | _ => none
 
+open Wp.DocLinks in
 def dpage? : Sx → Option DPage
   | .list [h, .list anchors, .list links] => do
     pure ⟨← h.rat?, ← allSome danchor? anchors, ← allSome dlink? links⟩
   | _ => none
 
-def number {α} : Nat → List α → List (Nat × α)
-  | _, [] => []
-  | n, x :: xs => (n, x) :: number (n + 1) xs
+def showAnnot (a : Wp.DocLinks.Annot) : String :=
+  match a.rect with
+  | none => "(lost)"
+  | some r =>
+    if a.kind == "attachment" then "(attachment " ++ showRect r ++ ")"
+    else "(" ++ esc a.kind ++ " " ++ esc a.target ++ " " ++ showRect r ++ ")"
 
-def rectOfLink (pages : List DPage) (l : Wp.Outline.Link) : Option Rect :=
-  (pages[l.id / 100000]?).bind fun p => (p.links[l.id % 100000]?).map (·.rect)
-
-/-- `add_links`: one `/Link` annotation per internal / external link. -/
-def linkAnnotOf (pages : List DPage) (m : Matrix) (l : Wp.Outline.Link) : Option String :=
-  if l.type == "internal" || l.type == "external" then
-    match rectOfLink pages l with
-    | none => some "(lost)"
-    | some r => some ("(" ++ esc l.type ++ " " ++ esc l.target ++ " " ++ showRect (annotRect m r) ++ ")")
-  else none
-
-/-- `add_annotations` (called after `add_links`): one `/FileAttachment` annotation per attachment link. -/
-def fileAnnotOf (pages : List DPage) (m : Matrix) (l : Wp.Outline.Link) : Option String :=
-  if l.type == "attachment" then
-    match rectOfLink pages l with
-    | none => some "(lost)"
-    | some r => some ("(attachment " ++ showRect (annotRect m r) ++ ")")
-  else none
-
-def pageOut (scale : Rat) (pages : List DPage) (pi : Nat) (p : DPage)
-    (res : List Wp.Outline.Link × List Anchor) : List String × List (String × Nat × Rat × Rat) :=
-  let m := pageMatrix scale p.height
-  let annots := res.1.filterMap (linkAnnotOf pages m) ++ res.1.filterMap (fileAnnotOf pages m)
-  let names := res.2.map fun (a : Anchor) =>
-    let pt := m.transformPoint a.x a.y
-    (a.name, pi, pt.1, pt.2)
-  (annots, names)
-
-def cpsOf (pages : List DPage) (name : String) : List Nat :=
-  match (pages.flatMap (·.anchors)).find? (fun a => a.1.name == name) with
-  | some a => a.2
-  | none => []
-
-/-- `resolve_links`, then per page `add_links` / `add_annotations` (rectangles only), then
-`sorted(pdf_names)`: the `/Annots` of every page and the `/Dests` name array.
-Link ids are `page index * 100000 + index in page`, so that the rectangle can be found again. -/
-def docLinks (scale : Rat) (pages : List DPage) : String :=
-  let lpages : List LPage := (number 0 pages).map fun (x : Nat × DPage) =>
-    ⟨x.2.anchors.map (·.1),
-     (number 0 x.2.links).map fun (y : Nat × DLink) => ⟨y.2.type, y.2.target, x.1 * 100000 + y.1⟩⟩
-  let resolved := resolveLinks lpages
-  let perPage := (number 0 (pages.zip resolved)).map
-    fun (x : Nat × DPage × (List Wp.Outline.Link × List Anchor)) => pageOut scale pages x.1 x.2.1 x.2.2
-  let allNames : List (String × Nat × Rat × Rat) := perPage.flatMap (·.2)
-  let sorted := sortNames ((number 0 allNames).map
-    fun (x : Nat × (String × Nat × Rat × Rat)) => (cpsOf pages x.2.1, x.1))
-  let dests := sorted.filterMap fun (x : List Nat × Nat) =>
-    (allNames[x.2]?).map fun (e : String × Nat × Rat × Rat) =>
-      "(" ++ esc e.1 ++ " " ++ toString e.2.1 ++ " " ++ showRat e.2.2.1 ++ " " ++ showRat e.2.2.2 ++ ")"
-  "(" ++ " ".intercalate (perPage.map fun (x : List String × _) => "(" ++ " ".intercalate x.1 ++ ")") ++ ") (" ++
-    " ".intercalate dests ++ ")"
+/-- The `/Annots` of every page and the `/Dests` name array (`Model/C18DocLinks.lean`), printed. -/
+def docLinks (scale : Rat) (pages : List Wp.DocLinks.DPage) : String :=
+  let annots := Wp.DocLinks.docAnnots scale pages
+  let dests := (Wp.DocLinks.docDests scale pages).map fun (x : List Nat × Wp.DocLinks.Dest) =>
+    "(" ++ esc x.2.name ++ " " ++ toString x.2.page ++ " " ++ showRat x.2.x ++ " " ++ showRat x.2.y ++ ")"
+  "(" ++ " ".intercalate (annots.map fun (x : List Wp.DocLinks.Annot) => "(" ++ " ".intercalate (x.map showAnnot) ++ ")") ++
+    ") (" ++ " ".intercalate dests ++ ")"
 
 def pseudo? : Sx → Option Wp.Metadata.Pseudo
   | .atom "none" => some .none
